@@ -382,7 +382,9 @@ tzm_find_zn(const char *zn, size_t zz)
 	char *restrict p = zns;
 	const char *const ep = zns + znz;
 
-	for (; p < ep && *p && strncmp(p, zn, zz); p += strlen(p), p++);
+	/* whole names only, Etc/GMT is not Etc/GMT+1 */
+	for (; p < ep && *p && (strncmp(p, zn, zz) || p[zz]);
+	     p += strlen(p), p++);
 	if (*p) {
 		/* found it, yay */
 		return p - zns;
